@@ -3,64 +3,13 @@
   and the ties of the regenerated block-size searches of the application layer to the hand model (Model/Matmul.lean).
   Helper prefix `ga_`.
 -/
+import Heathcliff.Proofs.GenAppBase
 import Heathcliff.Gen.AppFns
 import Heathcliff.Model.Matmul
 import Heathcliff.Proofs.C20C
 
 namespace HC
 open HC.MM HC.GenApp
-
-/-! ### loop combinators -/
-
-/-- a `for lo..lo+k` loop whose body never fails and either breaks at an index from which on the model step is the identity, or
-    performs the model step: the loop computes the model's fold (state related through `e`) -/
-theorem ga_forUp_eq {σ τ : Type} (e : τ → σ) (g : τ → Nat → τ) (P : Nat → Prop) (f : Nat → σ → R (Ctl σ))
-    (hmono : ∀ j, P j → P (j+1)) (hskip : ∀ j t, P j → g t j = t) :
-    ∀ (k lo : Nat) (t : τ),
-    (∀ j t, lo ≤ j → j < lo + k → (P j ∧ f j (e t) = .ok (.brk (e t))) ∨ f j (e t) = .ok (.next (e (g t j)))) →
-    forUp lo k (e t) f = .ok (e ((List.range' lo k).foldl g t)) := by
-  intro k
-  induction k with
-  | zero => intro lo t _; simp [forUp, pure, Except.pure]
-  | succ k ih =>
-    intro lo t h
-    have hP : ∀ (k' lo' : Nat) (t' : τ), P lo' → (List.range' lo' k').foldl g t' = t' := by
-      intro k'
-      induction k' with
-      | zero => intro lo' t' _; simp
-      | succ k' ih' =>
-        intro lo' t' hp
-        rw [List.range'_succ, List.foldl_cons, hskip lo' t' hp]
-        exact ih' (lo'+1) t' (hmono lo' hp)
-    rw [List.range'_succ, List.foldl_cons]
-    rcases h lo t (Nat.le_refl _) (by omega) with ⟨hp, hb⟩ | hn
-    · rw [hskip lo t hp, hP k (lo+1) t (hmono lo hp)]
-      simp [forUp, hb, pure, Except.pure]
-    · have := ih (lo+1) (g t lo) (fun j t' h1 h2 => h j t' (by omega) (by omega))
-      simp only [forUp, hn]
-      exact this
-
-/-- the same without `break` -/
-theorem ga_forUp_eq' {σ τ : Type} (e : τ → σ) (g : τ → Nat → τ) (f : Nat → σ → R (Ctl σ)) (k lo : Nat) (t : τ)
-    (h : ∀ j t, lo ≤ j → j < lo + k → f j (e t) = .ok (.next (e (g t j)))) :
-    forUp lo k (e t) f = .ok (e ((List.range' lo k).foldl g t)) :=
-  ga_forUp_eq e g (fun _ => False) f (fun _ h => h) (fun _ _ h => h.elim) k lo t (fun j t h1 h2 => Or.inr (h j t h1 h2))
-
-/-- a reversed `for` loop without `break` whose body performs the model step: the model's fold over `lo+k-1, …, lo` -/
-theorem ga_forDown_eq {σ τ : Type} (e : τ → σ) (g : τ → Nat → τ) (f : Nat → σ → R (Ctl σ)) (lo : Nat) :
-    ∀ (k : Nat) (t : τ),
-    (∀ j t, lo ≤ j → j < lo + k → f j (e t) = .ok (.next (e (g t j)))) →
-    forDown lo k (e t) f = .ok (e (((List.range k).reverse.map (· + lo)).foldl g t)) := by
-  intro k
-  induction k with
-  | zero => intro t _; simp [forDown, pure, Except.pure]
-  | succ k ih =>
-    intro t h
-    have h0 := h (lo + k) t (by omega) (by omega)
-    have := ih (g t (lo + k)) (fun j t' h1 h2 => h j t' h1 (by omega))
-    simp only [forDown, h0]
-    rw [this, List.range_succ, List.reverse_append]
-    simp [Nat.add_comm]
 
 theorem ga_downLoop_eq {τ : Type} (g : τ → Nat → τ) : ∀ (k : Nat) (t : τ),
     downLoop g k t = ((List.range k).reverse.map (· + 1)).foldl g t := by
@@ -88,23 +37,6 @@ theorem ga_cv_ceil_div {a b : Nat} (hb : 1 ≤ b) (h : a + b < 2^64) : cv_ceil_d
 /-! ### `MatmulHelper::new`, coefficient packing without LWE packing -/
 
 def ga_ofBest (s : Best) : Nat × Nat × Nat × Nat := (s.b, s.i, s.o, s.c)
-
-theorem ga_ckAdd {a b : Nat} (h : a + b < 2^64) : ckAdd a b = .ok (a + b) := by
-  have h' : a + b < B64 := by simpa [B64] using h
-  simp [ckAdd, h']
-theorem ga_ckMul {a b : Nat} (h : a * b < 2^64) : ckMul a b = .ok (a * b) := by
-  have h' : a * b < B64 := by simpa [B64] using h
-  simp [ckMul, h']
-theorem ga_ckSub {a b : Nat} (h : b ≤ a) : ckSub a b = .ok (a - b) := by simp [ckSub, h]
-theorem ga_ckDiv {a b : Nat} (h : 1 ≤ b) : GenApp.ckDiv a b = .ok (a / b) := by
-  have : b ≠ 0 := by omega
-  simp [GenApp.ckDiv, this]
-
-theorem ga_mul_lt {a b A B : Nat} (ha : a < A) (hb : b < B) : a * b < A * B := by
-  rcases Nat.eq_zero_or_pos b with h | h
-  · subst h; simp; exact ⟨by omega, by omega⟩
-  · calc a * b < A * b := Nat.mul_lt_mul_of_pos_right ha h
-      _ ≤ A * B := Nat.mul_le_mul_left A (Nat.le_of_lt hb)
 
 theorem ga_mm_new_loop1 (N id od : Nat) (obj : Objective) (b bc : Nat) (hb : 1 ≤ b) (hid : id < 2^20) (hod : od < 2^20)
     (hbc : bc < 2^20) (j : Nat) (hj : 1 ≤ j) (t : Best) :
@@ -198,10 +130,6 @@ theorem ga_mm_new_eq (bs id od N : Nat) (obj : Objective) (pe cl : Nat) (hbs : b
   · rw [if_neg h0, if_pos (by omega)]; rfl
 
 /-! ### `MatmulHelper::new` with LWE packing -/
-
-theorem ga_ckPow {a e : Nat} (h : a ^ e < 2^64) : GenApp.ckPow a e = .ok (a ^ e) := by
-  have h' : a ^ e < B64 := by simpa [B64] using h
-  simp [GenApp.ckPow, h']
 
 theorem ga_mm_new_loop3 (N bs id od : Nat) (obj : Objective) (i : Nat) (hi1 : 1 ≤ i) (hi2 : i < 2^63)
     (hbs : bs < 2^20) (hid : id < 2^20) (hod : od < 2^20) (b : Nat) (hb1 : 1 ≤ b) (hb2 : b ≤ bs) (t : Best) :
